@@ -1,8 +1,8 @@
 SPECIFICATION BuildSpec
 CONSTANTS
   Letters <- LettersGen
-  MaxLen = 4
-  PSteps = {1}
+  MaxLen = 3
+  PSteps = {2}
   PathAlg = "stack"
   Alias = "copy"
   Walker = "contract"
